@@ -1,5 +1,5 @@
 //! CTAPHID domain (C16, C15): `Message::new` + `send`, and `ChannelHandler::handle_packet`.
-use crate::util::{get_hex, hex, unhex};
+use pkharness::{get_hex, hex, unhex};
 use passkey_transports::hid::{ChannelHandler, Command, Message};
 use serde_json::{json, Value};
 
@@ -8,7 +8,7 @@ fn cmd_byte(c: Command) -> u8 {
     c.encode() & 0x7f
 }
 
-pub fn run_case(case: &Value) -> Value {
+fn run_case(case: &Value) -> Value {
     match case["op"].as_str().unwrap() {
         // {"op":"send","ch":u32,"cmd":u8,"payload":hex}
         "send" => {
@@ -46,4 +46,8 @@ pub fn run_case(case: &Value) -> Value {
         }
         other => panic!("unknown hid op {other}"),
     }
+}
+
+fn main() {
+    pkharness::run_domain(run_case);
 }
